@@ -1275,6 +1275,9 @@ INFO = {
             'handle; distinct = distinct trace digests',
             'components': _COMPONENTS, 'assumptions': _ASSUME},
 }
+for _v in INFO.values():
+    _v['rule'] += (
+        '; swarm dimensions (see probes): layered maps, displaced objects re-inserted, handles that compare equal or are unhashable, handle-valued / self-valued resources, loads that reach or clear other handles, handles overriding __call__, values only the handle keeps alive, Ellipsis / NotImplemented values, world-file handles whose file is rewritten, handles under two names (C12), map subclasses needing constructor arguments, keys of 1200+ components, dunder-like and normalisation-sensitive names, snapshots attempted on K3-shaped trees')
 PROBES = {
     'C11': ['implicit_intermediate_created', 'handle_replaced_by_map',
             'map_replaced_by_handle', 'layered_name_reassigned',
